@@ -367,3 +367,104 @@ func TestC14Reopen(t *testing.T) {
 		col.Case(reopens > 0 && crossRestart, hx.JSON(hist), desc)
 	})
 }
+
+// TestC14LargeBatch: batches of 101-260 storable events (beyond any plausible
+// internal chunk size); the failing call index is sampled (first/last calls, the
+// calls around every multiple of 50 events, and random ones) instead of enumerated.
+func TestC14LargeBatch(t *testing.T) {
+	col := ev.For("C14").SetRule(c14Rule)
+	col.Assume("for batches of more than 100 events the failing call index is sampled (about 40 indexes incl. boundaries), not enumerated")
+	rapid.Check(t, func(t *rapid.T) {
+		db, seed, err := openMem("sqlite3_verif_fault")
+		if err != nil {
+			t.Fatalf("open: %v", err)
+		}
+		defer db.Close()
+		ctx := context.Background()
+		world := &gen.World{Authors: gen.Pubkeys(2)}
+		cfg := &gen.StoreCfg{World: world, TsBase: 1000, TsSpan: 50, NoNoD: true, NoOpenRefs: true, NoEphemeral: true}
+		n := rapid.IntRange(101, 260).Draw(t, "n")
+		var batch []*mocrelay.Event
+		for len(batch) < n {
+			batch = append(batch, cfg.DrawEvent(t))
+		}
+		desc := map[string]any{"batch_size": len(batch)}
+		bat := battery{filters: [][]*mocrelay.ReqFilter{{{}}, {{Kinds: []int64{1}}}, {{Kinds: []int64{5}}}, {{Authors: world.Authors[:1]}}}}
+		before, _, err := snapshot(db, seed, bat)
+		if err != nil {
+			t.Fatalf("battery: %v", err)
+		}
+		// count the driver calls with a dry run on a scratch database
+		db0, seed0, err := openMem("sqlite3_verif_fault")
+		if err != nil {
+			t.Fatalf("open: %v", err)
+		}
+		theFaultCtl.arm(1 << 30)
+		if err := mocsqlite.VerifInsertEvents(ctx, db0, seed0, batch); err != nil {
+			t.Fatalf("dry run: %v", err)
+		}
+		calls, _ := theFaultCtl.disarm()
+		db0.Close()
+		total := len(calls)
+		idx := map[int]bool{0: true, 1: true, 5: true, 6: true, total - 1: true, total - 2: true}
+		for i := 0; i < 30; i++ {
+			idx[rapid.IntRange(0, total-1).Draw(t, fmt.Sprintf("fault%d", i))] = true
+		}
+		// the calls right after every 50th event
+		evCount := 0
+		for ci, c := range calls {
+			if c == "exec:events" {
+				evCount++
+				if evCount%50 == 1 || evCount%50 == 0 {
+					idx[ci] = true
+					if ci+1 < total {
+						idx[ci+1] = true
+					}
+				}
+			}
+		}
+		nf := 0
+		for fi := range idx {
+			if fi < 0 || fi >= total {
+				continue
+			}
+			theFaultCtl.arm(fi)
+			ierr := mocsqlite.VerifInsertEvents(ctx, db, seed, batch)
+			_, fired := theFaultCtl.disarm()
+			if fired == "" {
+				continue
+			}
+			nf++
+			col.Label("fault-large:" + fired)
+			if ierr == nil {
+				hx.Fail(t, ev.Failure{Property: "C14", Signature: "fault-swallowed", Clause: "a batch insertion that fails at a statement reports the failure", Case: desc, Observed: fmt.Sprintf("nil error (call %d %s)", fi, fired)})
+			}
+			now, _, err := snapshot(db, seed, bat)
+			if err != nil {
+				hx.Fail(t, ev.Failure{Property: "C14", Signature: "query-error-after-fault", Clause: "queries keep working after a failed batch", Case: desc, Observed: err.Error()})
+			}
+			for i := range before {
+				if before[i] != now[i] {
+					hx.Fail(t, ev.Failure{Property: "C14", Signature: "not-atomic", Clause: fmt.Sprintf("after a batch of %d events failed at call %d of %d (%s) the database answers every query exactly as before the batch", len(batch), fi, total, fired),
+						Case: map[string]any{"batch_size": len(batch), "failed_call": fi, "kind": fired, "query": gen.BriefFilters(bat.filters[i])}, Observed: now[i], Expected: before[i]})
+				}
+			}
+		}
+		if err := mocsqlite.VerifInsertEvents(ctx, db, seed, batch); err != nil {
+			hx.Fail(t, ev.Failure{Property: "C14", Signature: "retry-fails", Clause: "inserting the batch again after failures succeeds", Case: desc, Observed: err.Error()})
+		}
+		m := model.NewSQLModel()
+		for _, e := range batch {
+			m.Insert(e)
+		}
+		_, answers, err := snapshot(db, seed, bat)
+		if err != nil {
+			t.Fatalf("battery: %v", err)
+		}
+		if why := checkBatteryAgainstModel(m, bat, answers); why != "" {
+			hx.Fail(t, ev.Failure{Property: "C14", Signature: "retry-differs-from-single-insert", Clause: "failures followed by a successful retry lead to the same answers as a single successful insertion: " + why, Case: desc, Observed: why})
+		}
+		col.Add("injected_faults", int64(nf))
+		col.Case(true, hx.JSON(briefBatch(batch)), func() any { return map[string]any{"batch_size": len(batch), "driver_calls": total, "faults_injected": nf} })
+	})
+}
